@@ -437,6 +437,17 @@ def run_property(prop, tier, seed):
         if counters.get(name, 0) < minimum:
             unmet.append('%s=%d < %d' % (name, counters.get(name, 0), minimum))
 
+    # a generator defect must not pass as "fewer cases": generated models
+    # that cannot be built are rare by construction
+    for name in ('model_build_failed', 'load_function_creation_failed',
+                 'dumps_function_creation_failed'):
+        if counters.get(name, 0) > max(50, 0.01 * counters.get(
+                'evaluations', 0) if False else 50) and \
+                counters.get(name, 0) > 0.02 * max(1, sum(
+                    v for k, v in counters.items()
+                    if k in ('models', 'loads', 'dumps', 'cases'))):
+            unmet.append('%s=%d (too many)' % (name, counters[name]))
+
     # coverage numbers --------------------------------------------------------------
     all_funcs, all_lines = inventory()
     never = sorted(all_funcs - funcs_hit)
